@@ -13,7 +13,7 @@
     cu.check <culture> → <offsetTextsCustom> <dtTextsNoL> <monthHeadsEmpty>   (culture hypotheses of the theorems)
     pat.calids → hex of the U+001F-joined calendar ids
        type: time | date | offset | datetime | datetime:<y>,<m>,<d>,<nod> (template value)
-       shape: S<used>/<number of steps>  |  Z(<shape>)  |  C(<shape>,<shape>,…)
+       shape: S<used>/<number of steps>  |  Z(<shape>)  |  C(<shape>,<shape>,…)   (an embedded pattern counts as one step)
     culture: `inv` or `c:` + hex of the U+001F-joined fields of `Culture` (lists comma-free: each list entry is
        its own field; 4+4+14*4+8*2+11 … see `decodeCulture`)
 -/
@@ -57,7 +57,7 @@ def decodeCulture (s : String) : Option Culture :=
   else none
 
 /-- `time` | `date` | `offset` | `datetime` (default template) | `datetime:<y>,<m>,<d>,<nod>` | `annual` |
-    `annual:<m>,<d>` | `duration` -/
+    `annual:<m>,<d>` | `duration` | `instant` (values as UTC date-time fields) -/
 def decodeType (s : String) : Option PType :=
   if s = "time" then some .time else if s = "date" then some .date else if s = "offset" then some .offset
   else if s = "datetime" then some (.datetime Tmpl.default)
@@ -65,6 +65,7 @@ def decodeType (s : String) : Option PType :=
     match ((String.ofList (s.toList.drop 9)).splitOn ",").mapM String.toInt? with
     | some [y, m, d, nod] => some (.datetime ⟨y, m, d, nod⟩)
     | _ => none
+  else if s = "instant" then some (.datetime Tmpl.default)
   else if s = "annual" then some (.annual 1 1)
   else if s.startsWith "annual:" then
     match ((String.ofList (s.toList.drop 7)).splitOn ",").mapM String.toInt? with
@@ -74,21 +75,14 @@ def decodeType (s : String) : Option PType :=
   else none
 
 /-- the type a created pattern object parses with (LocalDateTime standard patterns keep the default template) -/
-def effType (ty : PType) (text : Text) : PType :=
+def effType (tok : String) (ty : PType) (text : Text) : PType :=
   match ty with
-  | .datetime tm => .datetime (effTmpl tm text)
+  | .datetime tm => if tok = "instant" then ty else .datetime (effTmpl tm text)
   | t => t
 
-mutual
-def showPat : Pat → String
-  | .stepped c => s!"S{c.used}/{c.steps.length}"
-  | .zprefix p => "Z(" ++ showPat p ++ ")"
-  | .composite ps => "C(" ++ showPats ps ++ ")"
-def showPats : List Pat → String
-  | [] => ""
-  | [p] => showPat p
-  | p :: ps => showPat p ++ "," ++ showPats ps
-end
+/-- pattern creation for a type token (`instant` = the Instant adapter over a LocalDateTime pattern) -/
+def compileTok (tok : String) (ty : PType) (cu : Culture) (text : Text) : R Pat :=
+  if tok = "instant" then compileInstant Tmpl.default cu text else compile ty cu text
 
 def stepIsText : Step → Bool
   | .amPm _ => true
@@ -97,17 +91,69 @@ def stepIsText : Step → Bool
   | .era => true
   | _ => false
 
+/-- number of format/parse action pairs of the segments (an embedded pattern is one action) -/
+def segActions : List Seg → Nat
+  | [] => 0
+  | .plain ss :: segs => ss.length + segActions segs
+  | _ :: segs => 1 + segActions segs
+
+def segHasText : Seg → Bool
+  | .plain ss => ss.any stepIsText
+  | .date c => c.steps.any stepIsText
+  | .time c => c.steps.any stepIsText
+
+mutual
+def showPat : Pat → String
+  | .stepped c => s!"S{c.used}/{c.steps.length}"
+  | .zprefix p => "Z(" ++ showPat p ++ ")"
+  | .composite ps => "C(" ++ showPats ps ++ ")"
+  | .segmented _ used segs => s!"S{used}/{segActions segs}"
+def showPats : List Pat → String
+  | [] => ""
+  | [p] => showPat p
+  | p :: ps => showPat p ++ "," ++ showPats ps
+end
+
 mutual
 def patHasText : Pat → Bool
   | .stepped c => c.steps.any stepIsText
   | .zprefix p => patHasText p
   | .composite ps => patsHaveText ps
+  | .segmented _ _ segs => segs.any segHasText
 def patsHaveText : List Pat → Bool
   | [] => false
   | p :: ps => patHasText p || patsHaveText ps
 end
 
 def asciiOnly (t : Text) : Bool := t.all (fun c => decide (c.toNat < 128))
+
+/-- the culture strings a text step compares case-insensitively are ASCII (the model's `asciiLower` is then `str.lower`) -/
+def stepAscii (cu : Culture) : Step → Bool
+  | .amPm _ => asciiOnly cu.am && asciiOnly cu.pm
+  | .monthText count => (monthTable cu count true).all asciiOnly && (monthTable cu count false).all asciiOnly
+  | .dayText count => (dayTable cu count).all asciiOnly
+  | .era => (cu.eraNamesBCE ++ cu.eraNamesCE).all asciiOnly
+  | _ => true
+
+def segAscii : Seg → Bool
+  | .plain _ => true
+  | .date c => c.steps.all (stepAscii c.cu)
+  | .time c => c.steps.all (stepAscii c.cu)
+
+def segPlainAscii (cu : Culture) : Seg → Bool
+  | .plain ss => ss.all (stepAscii cu)
+  | _ => true
+
+mutual
+def patAscii : Pat → Bool
+  | .stepped c => c.steps.all (stepAscii c.cu)
+  | .zprefix p => patAscii p
+  | .composite ps => patsAscii ps
+  | .segmented cu _ segs => segs.all segAscii && segs.all (segPlainAscii cu)
+def patsAscii : List Pat → Bool
+  | [] => true
+  | p :: ps => patAscii p && patsAscii ps
+end
 
 def cultureAscii (cu : Culture) : Bool :=
   asciiOnly cu.am && asciiOnly cu.pm &&
@@ -133,41 +179,41 @@ def handlePat (toks : List String) : Option String :=
       some (match embeddedPattern rest with
         | .error e => "!" ++ e.name
         | .ok (s, k) => s!"ok {encodeText' s} {k}")
-  | ["pat.compile", ty, p, cu] => do
-      let ty ← decodeType ty; let p ← decodeText' p; let cu ← decodeCulture cu
-      some (match compile ty cu p with
+  | ["pat.compile", tok, p, cu] => do
+      let ty ← decodeType tok; let p ← decodeText' p; let cu ← decodeCulture cu
+      some (match compileTok tok ty cu p with
         | .error e => "!" ++ e.name
         | .ok pat => "ok " ++ showPat pat)
-  | "pat.fmt" :: ty :: p :: cu :: args => do
-      let ty ← decodeType ty; let p ← decodeText' p; let cu ← decodeCulture cu
+  | "pat.fmt" :: tok :: p :: cu :: args => do
+      let ty ← decodeType tok; let p ← decodeText' p; let cu ← decodeCulture cu
       let v ← parseInts? args
       let get ← getterOf ty v
-      some (match compile ty cu p with
+      some (match compileTok tok ty cu p with
         | .error e => "!" ++ e.name
         | .ok pat =>
           match fmtPat ty v get pat with
           | .error e => "!" ++ e.name
           | .ok t => encodeText' t)
-  | ["pat.parse", ty, p, cu, t] => do
-      let ty ← decodeType ty; let p ← decodeText' p; let cu ← decodeCulture cu
+  | ["pat.parse", tok, p, cu, t] => do
+      let ty ← decodeType tok; let p ← decodeText' p; let cu ← decodeCulture cu
       let t ← decodeText' t
-      some (match compile ty cu p with
+      some (match compileTok tok ty cu p with
         | .error e => "!" ++ e.name
         | .ok pat =>
-          if patHasText pat && !(asciiOnly t && cultureAscii cu) then "!dom"
-          else match parsePat (effType ty p) t pat with
+          if patHasText pat && !(asciiOnly t && patAscii pat) then "!dom"
+          else match parsePat (effType tok ty p) t pat with
             | .error e => "!" ++ e.name
             | .ok none => "fail"
             | .ok (some v) => "ok " ++ showInts v)
-  | ["pat.delim", ty, p, cu] => do
-      let ty ← decodeType ty; let p ← decodeText' p; let cu ← decodeCulture cu
-      some (match compile ty cu p with
+  | ["pat.delim", tok, p, cu] => do
+      let ty ← decodeType tok; let p ← decodeText' p; let cu ← decodeCulture cu
+      some (match compileTok tok ty cu p with
         | .error e => "!" ++ e.name
         | .ok (.stepped c) => if Delimited c.cu c.used true c.steps then "1" else "0"
         | .ok _ => "-")
-  | ["pat.wf", ty, p, cu] => do
-      let ty ← decodeType ty; let p ← decodeText' p; let cu ← decodeCulture cu
-      some (match compile ty cu p with
+  | ["pat.wf", tok, p, cu] => do
+      let ty ← decodeType tok; let p ← decodeText' p; let cu ← decodeCulture cu
+      some (match compileTok tok ty cu p with
         | .error e => "!" ++ e.name
         | .ok (.stepped c) => showBool (c.steps.all dtStepWF && fieldsSound c.used c.steps)
         | .ok _ => "-")
